@@ -349,6 +349,8 @@ def slice_assumptions(assumptions, goal):
 
 
 _NL = {}
+_NL_CACHE = {}
+_NL_SIMP = {}
 
 
 def abstract_nonlinear(formulas):
@@ -357,7 +359,7 @@ def abstract_nonlinear(formulas):
     multiplication except that it is a function, so `unsat` of the abstraction implies `unsat` of the original
     (sound for proving; a `sat` answer means nothing).  Makes goals that are equal up to substitution / case
     analysis (loop step checks over large rational terms) pure EUF + linear arithmetic."""
-    cache = {}
+    cache = _NL_CACHE      # ast id -> (term kept alive, abstraction); shared by all queries of the process
 
     def fn(kind, sorts, rng):
         key = (kind, tuple(str(x) for x in sorts), str(rng))
@@ -430,7 +432,13 @@ def abstract_nonlinear(formulas):
         return r
     import sys
     sys.setrecursionlimit(max(sys.getrecursionlimit(), 50000))
-    return [walk(z3.simplify(f)) for f in formulas]
+    out = []
+    for f in formulas:
+        i = f.get_id()
+        if i not in _NL_SIMP:
+            _NL_SIMP[i] = (f, z3.simplify(f))
+        out.append(walk(_NL_SIMP[i][1]))
+    return out
 
 
 def _try_uf_abstraction(formulas, timeout_s):
@@ -468,6 +476,10 @@ def prove(assumptions, goal, timeout_s=10, opts=None, rounds=2):
     if not (opts or {}).get("no_slice"):
         assumptions = slice_assumptions(list(assumptions), goal)
     base = [a for a in assumptions] + [z3.Not(goal)]
+    if (opts or {}).get("uf_abstraction"):
+        # cheapest attempt first: no axiom instances at all (index bounds, shape facts, equal-up-to-substitution goals)
+        if _try_uf_abstraction(base, min(timeout_s, 2)):
+            return Verdict(PROVED, "z3-5.1(nonlinear-terms-as-UF)", (time.time() - t0) * 1000)
     inst = axioms.saturate(base, rounds=rounds, opts=opts)
     formulas = base + inst
     if (opts or {}).get("uf_abstraction"):
